@@ -23,10 +23,12 @@ MOD = 'checks.c13_blob'
 # a non-initial state: B rewritten, committed, and the rewrite undone
 UNDONE = [['bwrite', 'B'], ['commit'], ['undo', 0]]
 SAVED = [['bwrite', 'B'], ['savepoint']]
+CREATED = [['bwrite', 'N'], ['linkN'], ['commit']]
 SAVED_P = [['modp'], ['savepoint']]
 SP_KINDS = ['bwrite', 'bappend', 'consume', 'linkN', 'savepoint', 'rollback',
             'commit', 'abort']
-KINDS = ['bwrite', 'bappend', 'consume', 'linkN', 'modp', 'savepoint',
+KINDS = ['bwrite', 'bappend', 'consume', 'consume-missing', 'linkN', 'modp',
+         'savepoint',
          'rollback', 'commit', 'abort', 'rival', 'commit-vote-fail', 'undo',
          'undo-abort', 'pack']
 
@@ -167,6 +169,11 @@ class BlobWorld:
         for k in spec['kinds']:
             if k in ('bwrite', 'bappend', 'consume'):
                 ops += [(k, n) for n in ('B', 'N')]
+            elif k == 'consume-missing':
+                # consumeFile() of a file that is not there: it fails and
+                # leaves the blob as it was
+                ops += [(k, n) for n in ('B', 'N') if m[n].work is not None
+                        and (m[n].dirty or not m[n].owned)]
             elif k == 'linkN':
                 if not m['N'].in_root:
                     ops.append(('linkN',))
@@ -281,6 +288,13 @@ class BlobWorld:
         m = self.model
         root = self.conn.root()
         env.CLOCK.now += 1
+        if k == 'consume-missing':
+            n = op[1]
+            r = call(self.blobs[n].consumeFile,
+                     os.path.join(self.dir, 'no-such-file'))
+            if not isinstance(r, Exc):
+                self.bad('error', 'consume-missing-accepted', dict(blob=n))
+            return 'consume-missing'
         if k in ('bwrite', 'bappend', 'consume'):
             n = op[1]
             b = self.blobs[n]
@@ -453,6 +467,13 @@ class BlobWorld:
         # the plain objects have no conflict resolution), or packed
         later = self.txn_log[len(self.txn_log) - i:]
         refused = any(set(w) & set(wrote) & {'p', 'root'} for _, w in later)
+        # a later transaction that left other bytes in a blob this one
+        # wrote is a conflicting change (nothing can merge blobs); the same
+        # bytes are "equal in effect"
+        for _, w in later:
+            for n in w:
+                if n in m and n in wrote and w[n] != wrote[n]:
+                    refused = True
         if self.packed_upto is not None and tid <= self.packed_upto:
             refused = True
         info = self.db.undoInfo(0, 20)
@@ -662,6 +683,98 @@ def node(w, hist, cfg, res):
     return n, len(hist) >= 2, viol
 
 
+def undo_chain_task(kind, shape, length):
+    """Chains of undos, each undoing the newest transaction (undo, redo,
+    undo, ...), of a blob's creation ('create') or of a rewrite
+    ('rewrite'): after every link the blob is there with the right bytes or
+    gone, seen from a fresh connection, and every blob record has its file.
+    """
+    import transaction
+    from base64 import encodebytes
+    from mc import schedx
+    env.install()
+    env.reset_globals()
+    res = schedx._new_res()
+    d = env.new_dir('uc')
+    FS = env.mod('ZODB.FileStorage.FileStorage').FileStorage
+    BS = env.mod('ZODB.blob').BlobStorage
+    Blob = env.mod('ZODB.blob').Blob
+    if kind == 'Fb':
+        st = FS(os.path.join(d, 'Data.fs'), blob_dir=os.path.join(d, 'bl'))
+    else:
+        st = BS(os.path.join(d, 'bl'), FS(os.path.join(d, 'Data.fs')))
+    db = env.mod('ZODB.DB').DB(st)
+    wit = dict(undo_chain=dict(kind=kind, shape=shape, length=length))
+    seen = set()
+
+    def bad(c, sg, det):
+        fs = 'C13.%s:undo-chain:%s:%s:%s' % (c, kind, shape, sg)
+        if fs not in seen:
+            seen.add(fs)
+            res['violations'].append(('C13.' + c, fs, wit, det, 1))
+    try:
+        tm = transaction.TransactionManager()
+        c = db.open(tm)
+        b = Blob()
+        with b.open('w') as f:
+            f.write(b'one')
+        c.root()['N'] = b
+        env.CLOCK.now += 1
+        tm.commit()
+        states = [None, b'one']      # before / after the newest transaction
+        if shape == 'rewrite':
+            with b.open('w') as f:
+                f.write(b'two')
+            env.CLOCK.now += 1
+            tm.commit()
+            states = [b'one', b'two']
+        c.close()
+        cur = 1
+        for i in range(length):
+            env.CLOCK.now += 1
+            tmu = transaction.TransactionManager()
+            r = call(lambda: (db.undo(encodebytes(
+                db.storage.lastTransaction()).rstrip(), tmu.get()),
+                tmu.commit()))
+            res['cov']['transitions'] += 1
+            res['cov']['evaluations'] += 1
+            if isinstance(r, Exc):
+                tmu.abort()
+                bad('undo', 'link-%d:%s' % (i + 1, r.name),
+                    dict(got=repr(r)[:200]))
+                break
+            cur = 1 - cur
+            want = states[cur]
+            tmf = transaction.TransactionManager()
+            cf = db.open(tmf)
+            try:
+                root = cf.root()
+                if want is None:
+                    if 'N' in root:
+                        bad('undo', 'link-%d:still-there' % (i + 1), {})
+                else:
+                    got = call(lambda: root['N'].open('r').read())
+                    if got != want:
+                        bad('bytes', 'link-%d:read' % (i + 1),
+                            dict(expected=want, got=repr(got)[:100]))
+            finally:
+                tmf.abort()
+                cf.close()
+        res['cov']['states'] += 1
+        res['cov']['traces_validated_against_impl'] += 1
+        res['cov']['distinct_nontrivial'] += 1
+        res['outcomes']['undo-chain'] = 1
+    except Exception as e:      # noqa: B902
+        bad('error', type(e).__name__, dict(error=repr(e)[:200]))
+    finally:
+        try:
+            db.close()
+        except Exception:
+            pass
+        env.rm_dir(d)
+    return res
+
+
 def run(rep, tier, seed, workers):
     depth = 4 if tier == 'quick' else 5
     rep.rule = (
@@ -675,7 +788,9 @@ def run(rep, tier, seed, workers):
         'savepoint operations with two live savepoints from a state where a '
         'savepoint holds the rewritten blob / only the plain object; the '
         'BlobStorage wrapper over FileStorage and MappingStorage one step '
-        'shallower (incl. an undo that is started and aborted); after every '
+        'shallower (incl. an undo that is started and aborted); chains of '
+        'undo / redo of a blob\'s creation and of a rewrite on both; after '
+        'every '
         'step: '
         'the set, bytes and read-only mode of committed .blob files, '
         'leftovers anywhere under the blob directory once no transaction is '
@@ -685,6 +800,9 @@ def run(rep, tier, seed, workers):
     plan = [dict(prop='C13', kind='Fb', d=depth),
             dict(prop='C13', kind='Fb', d=depth - 1, start=UNDONE),
             dict(prop='C13', kind='BF', d=depth - 1),
+            # undo / redo chains of a blob's creation on the wrapper
+            dict(prop='C13', kind='BF', d=depth - 1, start=CREATED,
+                 kinds=['undo', 'bwrite', 'commit', 'pack']),
             dict(prop='C13', kind='BM', d=depth - 1),
             # nested savepoints: two live handles, from a state where the
             # blob is already held by a savepoint
@@ -697,20 +815,36 @@ def run(rep, tier, seed, workers):
         d = cfg.pop('d')
         fps = seqx.explore(rep, MOD, cfg, d, workers, seed, split=2)
         states += len(fps)
+        if cfg.get('start') == CREATED:
+            rep.bounds['BF depth after the creation of a blob'] = d
+            continue
         rep.bounds['%s depth%s' % (cfg['kind'], (
             ' after %s+savepoint, 2 handles' % (
                 'rewrite' if cfg['start'] == SAVED else 'modify p')
             if cfg.get('max_handles')
             else ' after rewrite+commit+undo') if cfg.get('start')
             else '')] = d
-    rep.cov['states'] = max(states, 1)
+    from mc import par
+    length = 4 if tier == 'quick' else 6
+    before = rep.cov.get('states', 0)
+    par.run_tasks([(MOD, 'undo_chain_task', (k, sh, length))
+                   for k in ('Fb', 'BF') for sh in ('create', 'rewrite')],
+                  workers, rep, seed)
+    rep.bounds['undo / redo chain length'] = length
+    rep.cov['states'] = max(states, 1) + rep.cov.get('states', 0) - before
     rep.assumptions = [
         'a blob that belongs to no database (never added, or un-added) may '
         'keep its own working file; its content is not compared']
 
 
 def replay(w):
-    viol = seqx.replay_history(MOD, w['witness'])
+    if 'undo_chain' in w['witness']:
+        u = w['witness']['undo_chain']
+        r = undo_chain_task(u['kind'], u['shape'], u['length'])
+        viol = [(v[0].split('.', 1)[1], v[1].split(':', 1)[1], v[3])
+                for v in r['violations']]
+    else:
+        viol = seqx.replay_history(MOD, w['witness'])
     for v in viol:
         print(v)
     sigs = {'C13.%s:%s' % (c, s) for c, s, d in viol}
